@@ -132,6 +132,8 @@ impl AwsChunkedStream {
                     prev_signature: seed_signature,
                 };
 
+                let mut delivered: usize = 0;
+
                 loop {
                     let meta = {
                         match Self::read_meta_bytes(body.as_mut(), prev_bytes, &mut buf).await {
@@ -167,12 +169,18 @@ impl AwsChunkedStream {
                     let is_final_chunk = meta.size == 0;
 
                     for bytes in data {
+                        delivered = delivered.saturating_add(bytes.len());
                         y.yield_ok(bytes).await;
                     }
 
                     if is_final_chunk {
                         break;
                     }
+                }
+
+                // the upload must total the declared decoded content length
+                if delivered != decoded_content_length {
+                    return Err(AwsChunkedStreamError::Incomplete);
                 }
 
                 Ok(())
